@@ -72,7 +72,17 @@ class Ctx:
 
     # ------------------------------------------------------------------ Verus
     def verus_unit(self, unit, finder=None, negctl=True):
-        """Run one Verus unit.  Every spliced clause + every function body is an obligation."""
+        """Run one Verus unit; a tool failure / lost anchor makes the unit UNDECIDED but does not stop
+        the remaining checks of the property (they may still find a violation)."""
+        try:
+            return self._verus_unit(unit, finder, negctl)
+        except (Undecided, Lost) as e:
+            self.undecided.append('%s reason=%s' % (getattr(e, 'unit', unit.name), getattr(e, 'reason', str(e))))
+            self.add(Obligation(self.prop, '%s/*' % unit.name, 'verus', 'complete', 'undecided', detail=str(e)))
+            return None
+
+    def _verus_unit(self, unit, finder=None, negctl=True):
+        """Every spliced clause + every function body is an obligation."""
         unit.prelude = PRELUDE if not getattr(unit, 'own_prelude', False) else unit.prelude
         try:
             text, meta = vu.build_unit(unit, self.scratch.dir)
@@ -182,6 +192,15 @@ class Ctx:
 
     def _violation_from_verus(self, ob, finder):
         wit = None
+        if finder and isinstance(finder, dict) and finder.get('ground'):
+            b = self.native()
+            module, which = finder['ground']
+            rc, out, err, secs = run([b, 'ground', module, which], timeout=600)
+            self.t('native-finder', secs)
+            line = (out.strip().splitlines() or [''])[-1]
+            if line.startswith('FAIL'):
+                wit = dict(instance=line[5:], observed=line, via='native evaluation %s/%s' % (module, which), replay=['ground', module, which])
+            finder = None
         if finder:
             b = self.native()
             finders = finder if isinstance(finder, list) else [finder]
@@ -202,6 +221,33 @@ class Ctx:
                     break
         ob.witness = wit
         self._record_violation(ob)
+
+    # ------------------------------------------------------------------ native closed-instance evaluation
+    def native_ground(self, module, which, kind, desc):
+        """Evaluate every closed (quantifier-free) instance of a finite statement on the real compiled code."""
+        b = self.native()
+        rc, out, err, secs = run([b, 'ground', module, which], timeout=900)
+        self.t('native-ground', secs)
+        line = (out.strip().splitlines() or [''])[-1]
+        name = 'ground/%s::%s' % (module, which)
+        if line.startswith('OK'):
+            n = int(line.split()[1])
+            self.add(Obligation(self.prop, name, 'native-eval', kind, 'discharged', seconds=secs, detail='%s [%s closed instances: %s]' % (desc, n, line[3:]),
+                                bound=None if kind == 'complete' else 'sampled neighbours'))
+            self.extra_cov['ground_instances'] = self.extra_cov.get('ground_instances', 0) + n
+            self.samples.append('%s: %s' % (name, line))
+        elif line.startswith('FAIL'):
+            ob = self.add(Obligation(self.prop, name, 'native-eval', kind, 'failed', seconds=secs, detail=desc + ' :: ' + line))
+            ob.witness = dict(instance=line[5:], observed=line, via='exhaustive evaluation of closed instances on the real code', replay=['ground', module, which])
+            self._record_violation(ob)
+        else:
+            ob = self.add(Obligation(self.prop, name, 'native-eval', kind, 'failed' if rc not in (0, 3) else 'undecided', seconds=secs, detail='%s :: rc=%s %s %s' % (desc, rc, line, err[-400:])))
+            if rc not in (0, 3):
+                # the evaluation itself panicked/crashed on a listed input
+                ob.witness = dict(instance='(crash)', observed=(err or line)[-600:], via='exhaustive evaluation of closed instances on the real code', replay=['ground', module, which])
+                self._record_violation(ob)
+            else:
+                self.undecided.append('%s: no result' % name)
 
     def _real_location(self, ob):
         """'file.rs:LINE' of the real statement a Verus body obligation points at (or '')."""
@@ -249,6 +295,14 @@ class Ctx:
         """specs: list of dict(name, module, kind ('complete'|'bounded'), bound=str, timeout=s, desc=str)."""
         if not specs:
             return
+        try:
+            self._kani(package, specs, jobs)
+        except Undecided as e:
+            self.undecided.append('%s reason=%s' % (e.unit, e.reason))
+            for s in specs:
+                self.add(Obligation(self.prop, 'kani/%s::%s' % (s['module'], s['name']), 'kani', s['kind'], 'undecided', detail=e.reason[:300]))
+
+    def _kani(self, package, specs, jobs=14):
         self.attach()
         by_to = {}
         seen_fail = {}
@@ -354,8 +408,9 @@ class Ctx:
         ev = dict(property_id=self.prop, tier=self.tier, seed=self.seed, level=self.level, coverage=cov,
                   assumptions=sorted(set(self.assumptions + self.trusted)), wall_s=round(time.time() - self.t0, 2),
                   violations=len(self.violations))
-        os.makedirs(os.path.join(VERIF, 'evidence'), exist_ok=True)
-        with open(os.path.join(VERIF, 'evidence', self.prop + '.json'), 'w') as f:
+        evdir = os.environ.get('VX_EVIDENCE_DIR') or os.path.join(VERIF, 'evidence')
+        os.makedirs(evdir, exist_ok=True)
+        with open(os.path.join(evdir, self.prop + '.json'), 'w') as f:
             json.dump(ev, f, indent=1)
         for k, ob in self.known_hits:
             print('KNOWN-FINDING: property=%s %s [%s]' % (self.prop, k['what'], ob.name))
